@@ -1936,4 +1936,46 @@ theorem sitesSaneB_sound {K : Type} [BEq K] [LawfulBEq K] {w : String → Nat} {
     · exact absurd hn h
     · exact h
 
+/-! ## histories (C03): only writes of `alpha` change what export selects -/
+
+theorem alphaOf_histStep (st : HistSt) (op : HistOp) (h : op.isWrite = false) :
+    alphaOf (histStep st op) = alphaOf st := by
+  unfold alphaOf histStep
+  rw [List.map_map]
+  apply List.map_congr_left
+  intro p _
+  cases op with
+  | setAlpha c a => cases h
+  | setHard h => rfl
+  | setTemp => rfl
+  | forward t => rfl
+
+theorem alphaOf_runHist (ops : List HistOp) : ∀ (st : HistSt), (∀ op ∈ ops, op.isWrite = false) →
+    alphaOf (runHist st ops) = alphaOf st := by
+  induction ops with
+  | nil => intro st _; rfl
+  | cons op ops ih =>
+    intro st h
+    unfold runHist
+    rw [List.foldl_cons]
+    have := ih (histStep st op) (fun o ho => h o (List.mem_cons_of_mem _ ho))
+    unfold runHist at this
+    rw [this, alphaOf_histStep st op (h op (List.mem_cons_self ..))]
+
+theorem assoc_alphaOf_write (st : HistSt) (c : String) (a : List Rat) (hc : c ∈ st.map (·.1)) :
+    assoc (alphaOf (histStep st (.setAlpha c a))) [] c = a := by
+  unfold assoc alphaOf histStep
+  induction st with
+  | nil => cases hc
+  | cons p st ih =>
+    simp only [List.map_cons, List.find?_cons]
+    by_cases hp : p.1 = c
+    · simp [hp, stepComb]
+    · have hne : (p.1 == c) = false := by simpa using hp
+      simp only [hne]
+      apply ih
+      rcases List.mem_cons.1 hc with h | h
+      · exact absurd h.symm hp
+      · exact h
+
 end PlinioVerif.SuperNet
